@@ -430,7 +430,10 @@ fn exec_std_op(st: &Value, handles: &mut HashMap<u64, sfs::File>, universe: &[St
 
 /// The same scripts through a real `turmoil::Sim`: every host is a command
 /// interpreter, the crash is `Sim::crash` + `Sim::bounce` (handles die with the
-/// host's tasks, the fs crash hook runs, the software restarts).
+/// host's tasks, the fs crash hook runs, the software restarts).  With
+/// `"host_returns": true` the host's software returns `Ok(())` right before
+/// every crash (a host whose program has finished, not a parked one); the
+/// bounce starts a fresh interpreter.
 fn run_case_sim(case: &Value) -> Value {
     use std::cell::RefCell;
     use std::collections::VecDeque;
@@ -453,6 +456,7 @@ fn run_case_sim(case: &Value) -> Value {
     }
     let mut sim = b.build();
     let _ = turmoil_fs::verif::take_decisions();
+    let host_returns = cfg["host_returns"].as_bool().unwrap_or(false);
     type Q = Rc<RefCell<VecDeque<Value>>>;
     let queues: Vec<Q> = (0..nhosts).map(|_| Rc::new(RefCell::new(VecDeque::new()))).collect();
     let outs: Vec<Rc<RefCell<Vec<Value>>>> = (0..nhosts).map(|_| Rc::new(RefCell::new(Vec::new()))).collect();
@@ -474,6 +478,9 @@ fn run_case_sim(case: &Value) -> Value {
                     loop {
                         let cmd = q.borrow_mut().pop_front();
                         let Some(cmd) = cmd else { break };
+                        if cmd[0].as_str() == Some("__return") {
+                            return Ok(());
+                        }
                         let o = exec_std_op(&cmd, &mut handles, &uni);
                         out.borrow_mut().push(o);
                     }
@@ -496,6 +503,18 @@ fn run_case_sim(case: &Value) -> Value {
         }
         let h = st[1].as_u64().unwrap() as usize;
         if name == "crash" {
+            if host_returns {
+                queues[h].borrow_mut().push_back(json!(["__return", h]));
+                notifies[h].notify_one();
+                let mut tries = 0;
+                while sim.is_host_running(format!("h{h}")) {
+                    sim.step().unwrap();
+                    tries += 1;
+                    if tries > 20 {
+                        panic!("host h{h} did not finish");
+                    }
+                }
+            }
             sim.crash(format!("h{h}"));
             let d = decisions_json();
             sim.bounce(format!("h{h}"));
